@@ -1018,23 +1018,6 @@ Proof.
       apply leb_val_str; eapply in_combine_snd_P; eassumption.
 Qed.
 
-(** ** std.sum: Rust's Sum starts from -0.0 *)
-Definition sum_step (acc : option val) (x : val) : option val :=
-  a <- acc ;; if is_num x then add_num a x else None.
-Lemma sum_from_unfold init l : sum_from init l = fold_left sum_step l (Some init).
-Proof. reflexivity. Qed.
-Lemma fold_sum_none l : fold_left sum_step l None = None.
-Proof. induction l; [reflexivity|]. cbn. exact IHl. Qed.
-Definition is_negzero (x : val) : bool := match x with VNegZero => true | _ => false end.
-Lemma sum_impl_spec l : forallb is_negzero l = false -> sum_impl l = sum_spec l.
-Proof.
-  unfold sum_impl, sum_spec. rewrite !sum_from_unfold.
-  induction l as [|x l IH]; intros H; [discriminate|].
-  cbn [fold_left]. destruct x; cbn [sum_step bind is_num is_some numz];
-    rewrite ?fold_sum_none; try reflexivity.
-  apply IH. exact H.
-Qed.
-
 (** ** the calls whose two models differ only in the algorithms proved above *)
 Definition simple_call (c : call) : bool :=
   match c with
@@ -1057,9 +1040,9 @@ Proof.
 Qed.
 
 Lemma simple_calls_refine c :
-  simple_call c = true -> known_sum_negzero c = false -> impl_call c = spec_call c.
+  simple_call c = true -> impl_call c = spec_call c.
 Proof.
-  unfold impl_call, spec_call. destruct c; intros Hs Hk; try discriminate Hs; try reflexivity;
+  unfold impl_call, spec_call. destruct c; intros Hs; try discriminate Hs; try reflexivity;
     cbn [run impl_algos spec_algos a_sort a_uniq a_set a_member a_union a_inter a_diff a_flatten a_join
          a_remove a_remove_at a_sum].
   - (* uniq *) destruct (as_arr arr); [|reflexivity]. cbn [bind]. rewrite uniq_v_same. reflexivity.
@@ -1069,30 +1052,6 @@ Proof.
     destruct (mapM as_arr l); [|reflexivity]. cbn [bind]. rewrite flatten_impl_concat. reflexivity.
   - (* join *) destruct (as_arr arr); [|reflexivity]. cbn [bind]. rewrite join_with_same. reflexivity.
   - (* lines *) destruct (as_arr arr); [|reflexivity]. cbn [bind]. rewrite join_with_same. reflexivity.
-  - (* sum *) destruct arr; try reflexivity. cbn [as_arr bind]. cbn [known_sum_negzero all_neg_zero] in Hk.
-    rewrite sum_impl_spec; [reflexivity|exact Hk].
-  - (* avg *) unfold avg_with. destruct arr; try reflexivity. cbn [as_arr bind].
-    destruct l as [|x l]; [reflexivity|]. cbn [known_sum_negzero all_neg_zero] in Hk.
-    rewrite sum_impl_spec; [reflexivity|exact Hk].
-Qed.
-
-(** ** refutations *)
-(** the faithful model of std.sum leaves the documented definition on the empty array *)
-Lemma sum_refuted : exists c, known_sum_negzero c = true /\ judge c = JSpec /\ impl_call c <> spec_call c.
-Proof. exists (CSum (VArr [])). repeat split. discriminate. Qed.
-
-(** an unstable sort is observable: two lists, both sorted permutations of the input, that
-    differ (0 and -0 compare equal and are different values) *)
-Lemma unstable_sort_observable :
-  exists l l' : list val,
-    Permutation l l' /\
-    StronglySorted (fun a b => leb_val a b = true) l' /\
-    sort_spec None l = Some l /\ l' <> l.
-Proof.
-  exists [VNum 0; VNegZero], [VNegZero; VNum 0]. repeat split.
-  - apply perm_swap.
-  - repeat constructor.
-  - discriminate.
 Qed.
 
 Lemma cmp_laws_Z : cmp_laws Z.compare.
@@ -1204,4 +1163,457 @@ Proof.
   - unfold sort_keyed_impl. rewrite Es. cbn [bind].
     destruct (classify_none ks STUnknown Es) as [[a [Ha Na]] [b [Hb Sb]]].
     rewrite (mixed_not_comparable ks a b Ha Na Hb Sb). reflexivity.
+Qed.
+
+(* ================================================================================= *)
+(** * Towards the full statement: the set functions and sort on the concrete universe *)
+
+(** the comparison made total by an arbitrary answer where [cmp_val] fails (never consulted) *)
+Definition cdef (a b : val) : comparison := match cmp_val a b with Some r => r | None => Eq end.
+
+Lemma mapM_keyd k l ks : mapM (keyfn k) l = Some ks ->
+  ks = map (keyd k) l /\ keys_ok (keyfn k) (keyd k) l.
+Proof.
+  revert ks. induction l as [|x l IH]; intros ks H.
+  - injection H as <-. split; constructor.
+  - cbn [mapM] in H. destruct (keyfn k x) as [v|] eqn:Ev; [|discriminate]. cbn [bind] in H.
+    destruct (mapM (keyfn k) l) as [vs|]; [|discriminate]. cbn [bind] in H. injection H as <-.
+    destruct (IH vs eq_refl) as [-> Hk]. split.
+    + cbn [map]. f_equal. unfold keyd. rewrite Ev. reflexivity.
+    + constructor; [|exact Hk]. unfold keyd. rewrite Ev. reflexivity.
+Qed.
+Lemma mapM_length {X Y} (f : X -> option Y) l ks : mapM f l = Some ks -> length ks = length l.
+Proof.
+  revert ks. induction l as [|x l IH]; intros ks H; [injection H as <-; reflexivity|].
+  cbn [mapM] in H. destruct (f x); [|discriminate]. cbn [bind] in H.
+  destruct (mapM f l) as [vs|]; [|discriminate]. injection H as <-. cbn. f_equal. apply IH. reflexivity.
+Qed.
+Lemma mapM_app {X Y} (f : X -> option Y) l1 l2 ks : mapM f (l1 ++ l2) = Some ks ->
+  exists k1 k2, mapM f l1 = Some k1 /\ mapM f l2 = Some k2 /\ ks = k1 ++ k2.
+Proof.
+  revert ks. induction l1 as [|x l1 IH]; intros ks H.
+  - exists [], ks. auto.
+  - cbn [app mapM] in *. destruct (f x) as [v|]; [|discriminate]. cbn [bind] in *.
+    destruct (mapM f (l1 ++ l2)) as [vs|] eqn:E; [|discriminate]. injection H as <-.
+    destruct (IH vs eq_refl) as [k1 [k2 [H1 [H2 ->]]]]. rewrite H1. exists (v :: k1), k2. auto.
+Qed.
+
+Lemma all_comparable_cross l1 : forall l2 a b,
+  all_comparable (l1 ++ l2) = true -> In a l1 -> In b l2 ->
+  is_some (cmp_val a b) = true /\ is_some (cmp_val b a) = true.
+Proof.
+  induction l1 as [|x l1 IH]; intros l2 a b H Ha Hb; [destruct Ha|].
+  cbn [app all_comparable] in H. apply andb_true_iff in H. destruct H as [H1 H2].
+  destruct Ha as [<-|Ha]; [|eapply IH; eassumption].
+  rewrite forallb_forall in H1. specialize (H1 b (in_or_app _ _ _ (or_intror Hb))).
+  apply andb_true_iff in H1. exact H1.
+Qed.
+
+Lemma keys_total_cross k la lb :
+  keys_total k (la ++ lb) = true ->
+  keys_ok (keyfn k) (keyd k) la /\ keys_ok (keyfn k) (keyd k) lb /\
+  cmp_ok cmp_val (keyd k) cdef la lb.
+Proof.
+  unfold keys_total. destruct (mapM (keyfn k) (la ++ lb)) as [ks|] eqn:E; [|discriminate]. intros H.
+  destruct (mapM_app _ _ _ _ E) as [k1 [k2 [H1 [H2 ->]]]].
+  destruct (mapM_keyd _ _ _ H1) as [-> Ka]. destruct (mapM_keyd _ _ _ H2) as [-> Kb].
+  split; [exact Ka|]. split; [exact Kb|].
+  intros x y Hx Hy.
+  destruct (all_comparable_cross _ _ (keyd k x) (keyd k y) H (in_map _ _ _ Hx) (in_map _ _ _ Hy)) as [Hc _].
+  unfold cdef. destruct (cmp_val (keyd k x) (keyd k y)); [reflexivity|discriminate].
+Qed.
+
+Lemma setops_calls_refine k a b :
+  sets_ok k a b = true ->
+  impl_call (CSetUnion a b k) = spec_call (CSetUnion a b k) /\
+  impl_call (CSetInter a b k) = spec_call (CSetInter a b k) /\
+  impl_call (CSetDiff a b k) = spec_call (CSetDiff a b k).
+Proof.
+  intros H. unfold impl_call, spec_call.
+  cbn [run impl_algos spec_algos a_union a_inter a_diff].
+  destruct a as [| | | | |la|]; try (repeat split; reflexivity).
+  destruct b as [| | | | |lb|]; try (repeat split; reflexivity).
+  cbn [as_arr bind]. cbn [sets_ok] in H.
+  apply andb_true_iff in H. destruct H as [_ H].
+  destruct (keys_total_cross k la lb H) as [Ka [Kb Hc]].
+  repeat split.
+  - rewrite (union_impl_pure _ _ (keyd k) cdef), (union_spec_pure _ _ (keyd k) cdef); auto.
+  - rewrite (inter_impl_pure _ _ (keyd k) cdef), (inter_spec_pure _ _ (keyd k) cdef); auto.
+  - rewrite (diff_impl_pure _ _ (keyd k) cdef), (diff_spec_pure _ _ (keyd k) cdef); auto.
+Qed.
+
+(** ** sort: the comparator path *)
+Lemma insert_f_perm {A} (cmpf : A -> A -> option comparison) x l s :
+  insert_f cmpf x l = Some s -> Permutation s (x :: l).
+Proof.
+  revert s. induction l as [|y l IH]; intros s H.
+  - injection H as <-. reflexivity.
+  - cbn [insert_f] in H. destruct (cmpf x y) as [c|]; [|discriminate]. cbn [bind] in H.
+    destruct c; try (injection H as <-; reflexivity).
+    destruct (insert_f cmpf x l) as [r|]; [|discriminate]. injection H as <-.
+    rewrite (IH r eq_refl). apply perm_swap.
+Qed.
+Lemma isort_f_perm {A} (cmpf : A -> A -> option comparison) l s :
+  isort_f cmpf l = Some s -> Permutation s l.
+Proof.
+  revert s. induction l as [|x l IH]; intros s H.
+  - injection H as <-. reflexivity.
+  - cbn [isort_f] in H. destruct (isort_f cmpf l) as [r|]; [|discriminate]. cbn [bind] in H.
+    rewrite (insert_f_perm _ _ _ _ H). constructor. apply IH. reflexivity.
+Qed.
+
+(** only an earlier element is ever compared (as first argument) with a later one *)
+Lemma isort_f_ok_ordered {A} (cmpf : A -> A -> option comparison) (leb : A -> A -> bool) l :
+  ForallOrdPairs (fun x y => exists c, cmpf x y = Some c /\ leb x y = leb_cmp c) l ->
+  isort_f cmpf l = Some (isort leb l).
+Proof.
+  induction 1 as [|x l Hx Hl IH]; [reflexivity|].
+  cbn [isort_f isort]. rewrite IH. cbn [bind].
+  apply insert_f_ok. intros y Hy.
+  apply (proj1 (Forall_forall _ _) Hx). eapply Permutation_in; [apply isort_perm|exact Hy].
+Qed.
+
+Lemma fop_combine (R : val -> val -> Prop) ks :
+  ForallOrdPairs R ks -> forall l : list val,
+  ForallOrdPairs (fun p q : val * val => R (snd p) (snd q)) (combine l ks).
+Proof.
+  induction 1 as [|k ks Hk Hks IH]; intros l; [destruct l; constructor|].
+  destruct l as [|x l]; [constructor|]. cbn [combine]. constructor; [|apply IH].
+  apply Forall_forall. intros q Hq. destruct q as [y ky]. apply in_combine_r in Hq.
+  exact (proj1 (Forall_forall _ _) Hk ky Hq).
+Qed.
+
+(** an element that compares with nothing else makes the sort fail *)
+Lemma isolated_fails {A} (cmpf : A -> A -> option comparison) l1 : forall e l2,
+  (forall y, In y (l1 ++ l2) -> cmpf e y = None /\ cmpf y e = None) ->
+  l1 ++ l2 <> [] -> isort_f cmpf (l1 ++ e :: l2) = None.
+Proof.
+  induction l1 as [|x l1 IH]; intros e l2 Hiso Hne.
+  - cbn [app isort_f]. destruct (isort_f cmpf l2) as [s|] eqn:Es; [|reflexivity]. cbn [bind].
+    pose proof (isort_f_perm _ _ _ Es) as Hp.
+    destruct s as [|y s]. { apply Permutation_nil in Hp. cbn in Hne. congruence. }
+    cbn [insert_f]. destruct (Hiso y) as [H1 _].
+    { cbn [app]. eapply Permutation_in; [exact Hp|left; reflexivity]. }
+    rewrite H1. reflexivity.
+  - cbn [app isort_f].
+    destruct l1 as [|x' l1]; [destruct l2 as [|y' l2]|].
+    + cbn [app isort_f bind insert_f]. destruct (Hiso x (or_introl eq_refl)) as [_ H2]. rewrite H2. reflexivity.
+    + rewrite (IH e (y' :: l2)); [reflexivity| |discriminate].
+      intros y Hy. apply Hiso. right. exact Hy.
+    + rewrite (IH e l2); [reflexivity| |discriminate].
+      intros y Hy. apply Hiso. right. exact Hy.
+Qed.
+
+Lemma others_spec {X} (l : list X) : forall pre e rest,
+  In (e, rest) (others pre l) -> exists l1 l2, l = l1 ++ e :: l2 /\ rest = rev pre ++ l1 ++ l2.
+Proof.
+  induction l as [|x l IH]; intros pre e rest H; [destruct H|].
+  cbn [others] in H. destruct H as [H|H].
+  - injection H as <- <-. exists [], l. auto.
+  - destruct (IH _ _ _ H) as [l1 [l2 [-> ->]]]. exists (x :: l1), l2. split; [reflexivity|].
+    cbn [rev]. rewrite <- app_assoc. reflexivity.
+Qed.
+
+Lemma has_isolated_split ks : has_isolated ks = true ->
+  exists k1 e k2, ks = k1 ++ e :: k2 /\
+    forall y, In y (k1 ++ k2) -> cmp_val e y = None /\ cmp_val y e = None.
+Proof.
+  unfold has_isolated. intros H. apply existsb_exists in H. destruct H as [[e rest] [Hin H]].
+  destruct (others_spec _ _ _ _ Hin) as [k1 [k2 [-> ->]]]. exists k1, e, k2. split; [reflexivity|].
+  cbn [fst snd rev app] in H. rewrite forallb_forall in H. intros y Hy. specialize (H y Hy).
+  apply andb_true_iff in H. destruct H as [H1 H2].
+  destruct (cmp_val e y); [discriminate|]. destruct (cmp_val y e); [discriminate|]. auto.
+Qed.
+
+Lemma map_snd_combine_eq (l ks : list val) : length ks = length l -> map snd (combine l ks) = ks.
+Proof.
+  revert ks. induction l as [|x l IH]; intros [|k ks] H; try discriminate; [reflexivity|].
+  cbn. f_equal. apply IH. cbn in H. lia.
+Qed.
+
+Lemma all_comparable_ordered ks :
+  all_comparable ks = true ->
+  ForallOrdPairs (fun a b => exists c, cmp_val a b = Some c /\ leb_val a b = leb_cmp c) ks.
+Proof.
+  induction ks as [|k ks IH]; intros H; [constructor|].
+  cbn [all_comparable] in H. apply andb_true_iff in H. destruct H as [H1 H2].
+  constructor; [|apply IH; exact H2].
+  apply Forall_forall. intros b Hb. rewrite forallb_forall in H1. specialize (H1 b Hb).
+  apply andb_true_iff in H1. destruct H1 as [H1 _]. unfold leb_val.
+  destruct (cmp_val k b) as [c|]; [|discriminate]. exists c. split; [reflexivity|]. destruct c; reflexivity.
+Qed.
+
+Lemma sort_keyed_refines l ks :
+  length ks = length l -> 2 <= length ks ->
+  all_comparable ks = true \/ has_isolated ks = true ->
+  sort_keyed_impl l ks =
+  if all_comparable ks
+  then Some (map fst (isort (fun p q : val * val => leb_val (snd p) (snd q)) (combine l ks)))
+  else None.
+Proof.
+  intros Hlen H2 Hdet.
+  destruct (get_sort_type STUnknown ks) as [st|] eqn:Es.
+  2:{ unfold sort_keyed_impl. rewrite Es. cbn [bind].
+      destruct (classify_none ks STUnknown Es) as [[a [Ha Na]] [b [Hb Sb]]].
+      rewrite (mixed_not_comparable ks a b Ha Na Hb Sb). reflexivity. }
+  assert (Hslow : sort_keyed_impl l ks =
+                  (r <- isort_f (fun p q : val * val => cmp_val (snd p) (snd q)) (combine l ks) ;; Some (map fst r)) ->
+            sort_keyed_impl l ks =
+            if all_comparable ks
+            then Some (map fst (isort (fun p q : val * val => leb_val (snd p) (snd q)) (combine l ks)))
+            else None).
+  { intros ->. destruct (all_comparable ks) eqn:Ec.
+    - rewrite (isort_f_ok_ordered _ (fun p q : val * val => leb_val (snd p) (snd q))); [reflexivity|].
+      apply (fop_combine (fun a b => exists c, cmp_val a b = Some c /\ leb_val a b = leb_cmp c)).
+      apply all_comparable_ordered. exact Ec.
+    - destruct Hdet as [Hd|Hd]; [discriminate|].
+      destruct (has_isolated_split ks Hd) as [k1 [e [k2 [Hks Hiso]]]].
+      pose proof (map_snd_combine_eq l ks Hlen) as Hm. rewrite Hks in Hm at 2.
+      apply map_eq_app in Hm. destruct Hm as [P1 [P2' [HL [HP1 HP2]]]].
+      apply map_eq_cons in HP2. destruct HP2 as [p [P2 [-> [Hp HP2]]]].
+      rewrite HL. rewrite isolated_fails; [reflexivity| |].
+      + intros q Hq. assert (Hs : In (snd q) (k1 ++ k2)).
+        { rewrite <- HP1, <- HP2, <- map_app. apply in_map. exact Hq. }
+        rewrite Hp. apply Hiso. exact Hs.
+      + intros E. apply (f_equal (@length _)) in E.
+        assert (length (combine l ks) = length ks) by (rewrite combine_length; lia).
+        rewrite HL in H. rewrite app_length in *. cbn [length] in *. lia. }
+  destruct st.
+  - destruct (sort_fast_paths l ks STNumber Es (or_introl eq_refl)) as [Hc Hs]. rewrite Hc. exact Hs.
+  - destruct (sort_fast_paths l ks STString Es (or_intror eq_refl)) as [Hc Hs]. rewrite Hc. exact Hs.
+  - apply Hslow. unfold sort_keyed_impl. rewrite Es. reflexivity.
+  - apply Hslow. unfold sort_keyed_impl. rewrite Es. reflexivity.
+Qed.
+
+Lemma sort_refines_determinate k l :
+  sort_determinate k l = true -> sort_impl k l = sort_spec k l /\ set_impl k l = set_spec k l.
+Proof.
+  intros H. assert (E : sort_impl k l = sort_spec k l).
+  { unfold sort_determinate in H. unfold sort_impl, sort_spec.
+    destruct (length l <=? 1) eqn:El; [reflexivity|]. cbn [orb] in H.
+    destruct (mapM (keyfn k) l) as [ks|] eqn:Ek; [|reflexivity]. cbn [bind].
+    pose proof (mapM_length _ _ _ Ek) as Hlen. apply Nat.leb_gt in El.
+    apply sort_keyed_refines; [exact Hlen|lia|]. apply orb_true_iff. exact H. }
+  split; [exact E|].
+  unfold set_impl, set_spec. rewrite E. destruct (sort_spec k l); [|reflexivity]. cbn [bind]. apply uniq_v_same.
+Qed.
+
+(* ================================================================================= *)
+(** * A total order on the whole value universe that extends [cmp_val] *)
+Definition law5 {Y} (c : Y -> Y -> comparison) (x : Y) : Prop :=
+  (forall y, c y x = CompOpp (c x y)) /\
+  (forall y z, c x y = Lt -> c y z = Lt -> c x z = Lt) /\
+  (forall y z, c x y = Eq -> c y z = Eq -> c x z = Eq) /\
+  (forall y z, c x y = Eq -> c y z = Lt -> c x z = Lt) /\
+  (forall y z, c x y = Lt -> c y z = Eq -> c x z = Lt).
+
+Lemma law5_laws {Y} (c : Y -> Y -> comparison) : (forall x, law5 c x) -> cmp_laws c.
+Proof.
+  intros H. unfold cmp_laws. repeat split; intros.
+  - apply (proj1 (H x)).
+  - eapply (proj1 (proj2 (H x))); eassumption.
+  - eapply (proj1 (proj2 (proj2 (H x)))); eassumption.
+  - eapply (proj1 (proj2 (proj2 (proj2 (H x))))); eassumption.
+  - eapply (proj2 (proj2 (proj2 (proj2 (H x))))); eassumption.
+Qed.
+
+Section Lex.
+  Context {X : Type}.
+  Variable cx : X -> X -> comparison.
+  Fixpoint lex (l m : list X) : comparison :=
+    match l, m with
+    | [], [] => Eq
+    | [], _ => Lt
+    | _, [] => Gt
+    | x :: l', y :: m' => match cx x y with Eq => lex l' m' | r => r end
+    end.
+
+  Lemma lex_law5 l : Forall (law5 cx) l -> law5 lex l.
+  Proof.
+    induction 1 as [|x l Hx Hl IH].
+    - unfold law5. repeat split.
+      + intros []; reflexivity.
+      + intros [|y0 y] [|z0 z]; cbn; congruence.
+      + intros [|y0 y] [|z0 z]; cbn; congruence.
+      + intros [|y0 y] [|z0 z]; cbn; congruence.
+      + intros [|y0 y] [|z0 z]; cbn; congruence.
+    - destruct Hx as [X1 [X2 [X3 [X4 X5]]]]. destruct IH as [I1 [I2 [I3 [I4 I5]]]].
+      unfold law5. repeat split.
+      + intros [|y0 y]; [reflexivity|]. cbn [lex]. rewrite (X1 y0).
+        destruct (cx x y0); cbn [CompOpp]; auto.
+      + intros [|y0 y] [|z0 z]; cbn [lex]; try congruence.
+        destruct (cx x y0) eqn:E1; try congruence; destruct (cx y0 z0) eqn:E2; try congruence; intros H1 H2.
+        * rewrite (X3 _ _ E1 E2). eapply I2; eassumption.
+        * rewrite (X4 _ _ E1 E2). reflexivity.
+        * rewrite (X5 _ _ E1 E2). reflexivity.
+        * rewrite (X2 _ _ E1 E2). reflexivity.
+      + intros [|y0 y] [|z0 z]; cbn [lex]; try congruence.
+        destruct (cx x y0) eqn:E1; try congruence; destruct (cx y0 z0) eqn:E2; try congruence; intros H1 H2.
+        rewrite (X3 _ _ E1 E2). eapply I3; eassumption.
+      + intros [|y0 y] [|z0 z]; cbn [lex]; try congruence.
+        destruct (cx x y0) eqn:E1; try congruence; destruct (cx y0 z0) eqn:E2; try congruence; intros H1 H2.
+        * rewrite (X3 _ _ E1 E2). eapply I4; eassumption.
+        * rewrite (X4 _ _ E1 E2). reflexivity.
+      + intros [|y0 y] [|z0 z]; cbn [lex]; try congruence.
+        destruct (cx x y0) eqn:E1; try congruence; destruct (cx y0 z0) eqn:E2; try congruence; intros H1 H2.
+        * rewrite (X3 _ _ E1 E2). eapply I5; eassumption.
+        * rewrite (X5 _ _ E1 E2). reflexivity.
+  Qed.
+End Lex.
+
+Lemma law5_N : forall n : N, law5 N.compare n.
+Proof.
+  intros n. unfold law5. repeat split; intros.
+  - apply N.compare_antisym.
+  - rewrite N.compare_lt_iff in *. lia.
+  - rewrite N.compare_eq_iff in *. lia.
+  - rewrite N.compare_eq_iff in H. rewrite N.compare_lt_iff in *. lia.
+  - rewrite N.compare_eq_iff in H0. rewrite N.compare_lt_iff in *. lia.
+Qed.
+Lemma cmp_str_lex s t : cmp_str s t = lex N.compare s t.
+Proof. reflexivity. Qed.
+Lemma law5_str s : law5 cmp_str s.
+Proof.
+  assert (H : law5 (lex N.compare) s) by (apply lex_law5; apply Forall_forall; intros; apply law5_N).
+  unfold law5 in *. setoid_rewrite cmp_str_lex. exact H.
+Qed.
+
+Definition rank (v : val) : nat :=
+  match v with VNull => 0 | VBool _ => 1 | VNum _ | VNegZero => 2 | VStr _ => 3 | VArr _ => 4 | VObj => 5 end.
+Definition zkey (v : val) : Z :=
+  match v with VBool true => 1%Z | VNum z => z | _ => 0%Z end.
+Fixpoint ctot (a b : val) : comparison :=
+  match Nat.compare (rank a) (rank b) with
+  | Eq =>
+      match a, b with
+      | VArr l, VArr m =>
+          (fix lex (l m : list val) : comparison :=
+             match l, m with
+             | [], [] => Eq
+             | [], _ => Lt
+             | _, [] => Gt
+             | x :: l', y :: m' => match ctot x y with Eq => lex l' m' | r => r end
+             end) l m
+      | VStr s, VStr t => cmp_str s t
+      | _, _ => Z.compare (zkey a) (zkey b)
+      end
+  | r => r
+  end.
+Lemma ctot_arr l m : ctot (VArr l) (VArr m) = lex ctot l m.
+Proof. reflexivity. Qed.
+
+Local Arguments Z.compare : simpl never.
+Local Arguments cmp_str : simpl never.
+Local Arguments lex : simpl never.
+
+Ltac zc := rewrite ?Z.compare_lt_iff, ?Z.compare_eq_iff, ?Z.compare_gt_iff in *; lia.
+
+Ltac law_cases :=
+  unfold law5; repeat split;
+  (let y := fresh "y" in let z := fresh "z" in intros y; try (intros z; destruct z); destruct y);
+  repeat match goal with b : bool |- _ => destruct b end.
+Ltac law_fin := cbn; try congruence; try apply Z.compare_antisym; try (intros; zc).
+
+Lemma ctot_law5 : forall x, law5 ctot x.
+Proof.
+  apply val_ind'.
+  - (* null *) law_cases; law_fin.
+  - (* bool *) intros b0. law_cases; law_fin.
+  - (* num *) intros n. law_cases; law_fin.
+  - (* -0 *) law_cases; law_fin.
+  - (* str *) intros s. destruct (law5_str s) as [S1 [S2 [S3 [S4 S5]]]].
+    law_cases; cbn; try congruence; eauto.
+  - (* arr *) intros l H. destruct (lex_law5 ctot l H) as [S1 [S2 [S3 [S4 S5]]]].
+    law_cases; rewrite ?ctot_arr; try (cbn; congruence); eauto.
+  - (* obj *) law_cases; law_fin.
+Qed.
+Lemma cmp_laws_ctot : cmp_laws ctot.
+Proof. apply law5_laws. exact ctot_law5. Qed.
+
+(** [ctot] answers as [cmp_val] wherever [cmp_val] answers *)
+Fixpoint lexo (l m : list val) : option comparison :=
+  match l, m with
+  | [], [] => Some Eq
+  | [], _ => Some Lt
+  | _, [] => Some Gt
+  | x :: l', y :: m' => match cmp_val x y with Some Eq => lexo l' m' | r => r end
+  end.
+Lemma cmp_val_arr l m : cmp_val (VArr l) (VArr m) = lexo l m.
+Proof. reflexivity. Qed.
+
+Lemma ctot_extends : forall a b c, cmp_val a b = Some c -> ctot a b = c.
+Proof.
+  apply (val_ind' (fun a => forall b c, cmp_val a b = Some c -> ctot a b = c)).
+  - intros [] c H; discriminate.
+  - intros x [] c H; discriminate.
+  - intros x [] c H; cbn in H; try discriminate; injection H as <-; reflexivity.
+  - intros [] c H; cbn in H; try discriminate; injection H as <-; reflexivity.
+  - intros s [] c H; cbn in H; try discriminate; injection H as <-; reflexivity.
+  - intros l H [] c Hc; try discriminate. rewrite cmp_val_arr in Hc. rewrite ctot_arr.
+    revert l0 Hc. induction H as [|x l Hx Hl IH]; intros [|y m] Hc; cbn in Hc; try (injection Hc as <-; reflexivity).
+    change (lex ctot (x :: l) (y :: m)) with (match ctot x y with Eq => lex ctot l m | r => r end).
+    destruct (cmp_val x y) as [c0|] eqn:E; [|discriminate]. rewrite (Hx y c0 E).
+    destruct c0; try (injection Hc as <-; reflexivity). apply IH. exact Hc.
+  - intros [] c H; discriminate.
+Qed.
+
+Lemma strict_sorted_b_ctot k l :
+  strict_sorted_b (map (keyd k) l) = true -> strict_sorted (keyd k) ctot l.
+Proof.
+  induction l as [|x l IH]; intros H; [constructor|].
+  cbn [map strict_sorted_b] in H. apply andb_true_iff in H. destruct H as [H1 H2].
+  constructor; [apply IH; exact H2|].
+  apply Forall_forall. intros y Hy. rewrite forallb_forall in H1.
+  specialize (H1 (keyd k y) (in_map _ _ _ Hy)).
+  destruct (cmp_val (keyd k x) (keyd k y)) as [c|] eqn:E; [|discriminate].
+  destruct c; try discriminate. apply ctot_extends. exact E.
+Qed.
+
+Lemma setmember_call_refines k x l :
+  is_set k l && keys_total k (x :: l) = true ->
+  impl_call (CSetMember x (VArr l) k) = spec_call (CSetMember x (VArr l) k).
+Proof.
+  intros H. apply andb_true_iff in H. destruct H as [Hs Ht].
+  unfold impl_call, spec_call. cbn [run as_arr bind impl_algos spec_algos a_member].
+  unfold keys_total in Ht. destruct (mapM (keyfn k) (x :: l)) as [ks|] eqn:Ek; [|discriminate].
+  destruct (mapM_keyd _ _ _ Ek) as [-> Hk]. pose proof (Forall_inv Hk) as Hx.
+  pose proof (Forall_inv_tail Hk) as Hl. cbn beta in Hx.
+  cbn [map all_comparable] in Ht. apply andb_true_iff in Ht. destruct Ht as [Hc _].
+  rewrite forallb_forall in Hc.
+  assert (Hcmp : forall e, In e l ->
+            cmp_val (keyd k e) (keyd k x) = Some (ctot (keyd k e) (keyd k x)) /\
+            cmp_val (keyd k x) (keyd k e) = Some (ctot (keyd k x) (keyd k e))).
+  { intros e He. specialize (Hc _ (in_map (keyd k) _ _ He)). apply andb_true_iff in Hc. destruct Hc as [C1 C2].
+    destruct (cmp_val (keyd k x) (keyd k e)) as [c1|] eqn:E1; [|discriminate].
+    destruct (cmp_val (keyd k e) (keyd k x)) as [c2|] eqn:E2; [|discriminate].
+    rewrite (ctot_extends _ _ _ E1), (ctot_extends _ _ _ E2). auto. }
+  assert (Hsorted : strict_sorted (keyd k) ctot l).
+  { unfold is_set in Hs. destruct (mapM (keyfn k) l) as [ksl|] eqn:El; [|discriminate].
+    destruct (mapM_keyd _ _ _ El) as [-> _]. apply strict_sorted_b_ctot. exact Hs. }
+  rewrite (set_member_impl_correct (keyfn k) cmp_val (keyd k) ctot cmp_laws_ctot x l Hsorted Hx Hl
+             (fun e He => proj1 (Hcmp e He))).
+  rewrite (set_member_spec_correct (keyfn k) cmp_val (keyd k) ctot cmp_laws_ctot x l Hsorted Hx Hl
+             (fun e He => proj2 (Hcmp e He))).
+  reflexivity.
+Qed.
+
+(** ** the full statement *)
+Lemma calls_refine c : judge c = JSpec -> impl_call c = spec_call c.
+Proof.
+  intros H. destruct (simple_call c) eqn:Es; [apply simple_calls_refine; exact Es|].
+  destruct c; try discriminate Es.
+  - (* sort *) destruct arr; try reflexivity. cbn [judge] in H.
+    destruct (sort_determinate k l) eqn:Ed; [|discriminate].
+    unfold impl_call, spec_call. cbn [run as_arr bind impl_algos spec_algos a_sort].
+    rewrite (proj1 (sort_refines_determinate k l Ed)). reflexivity.
+  - (* set *) destruct arr; try reflexivity. cbn [judge] in H.
+    destruct (sort_determinate k l) eqn:Ed; [|discriminate].
+    unfold impl_call, spec_call. cbn [run as_arr bind impl_algos spec_algos a_set].
+    rewrite (proj2 (sort_refines_determinate k l Ed)). reflexivity.
+  - (* setMember *) destruct arr; try reflexivity. cbn [judge] in H.
+    destruct (is_set k l && keys_total k (x :: l)) eqn:Ej; [|discriminate].
+    apply setmember_call_refines. exact Ej.
+  - cbn [judge] in H. destruct (sets_ok k a b) eqn:Ej; [|discriminate]. apply (setops_calls_refine k a b Ej).
+  - cbn [judge] in H. destruct (sets_ok k a b) eqn:Ej; [|discriminate]. apply (setops_calls_refine k a b Ej).
+  - cbn [judge] in H. destruct (sets_ok k a b) eqn:Ej; [|discriminate]. apply (setops_calls_refine k a b Ej).
 Qed.
